@@ -137,6 +137,20 @@ void vf_run_case(Ctx& c, uint64_t index) {
     }
     { std::ostringstream os; size_t n = pretty ? AJ::serializeJsonPretty(doc, os) : AJ::serializeJson(doc, os);
       if (os.str() != full || n != full.size()) c.violation("ostream-differs", std::string(what) + " to std::ostream: content or count differs", wit); }
+    { // a stream that carries formatting state left over from earlier output (width, fill, alignment, base, showpos...)
+      std::ostringstream os; os << "x";
+      static const int widths[] = {1, 2, 8, 20};
+      os.width(r.pick(widths)); os.fill(r.coin() ? '*' : '0');
+      os.setf(r.coin() ? std::ios::left : std::ios::right, std::ios::adjustfield);
+      if (r.coin()) os.setf(std::ios::hex, std::ios::basefield);
+      if (r.coin()) os.setf(std::ios::showpos | std::ios::uppercase | std::ios::showbase | std::ios::scientific);
+      os.precision((int)r.range(0, 12));
+      size_t n;
+      if (r.coin()) n = pretty ? AJ::serializeJsonPretty(doc, os) : AJ::serializeJson(doc, os);
+      else if (pretty) n = AJ::serializeJsonPretty(doc.as<AJ::JsonVariantConst>(), os);
+      else { os << doc; n = full.size(); }
+      if (os.str() != "x" + full || n != full.size()) c.violation("ostream-differs", std::string(what) + " to a std::ostream with width/fill/flags set: content or count differs", wit);
+      c.count("formatted_stream_destinations"); }
     { CollectWriter w; size_t n = pretty ? AJ::serializeJsonPretty(doc, w) : AJ::serializeJson(doc, w);
       if (w.data != full || n != full.size()) c.violation("custom-writer-differs", std::string(what) + " to a custom writer: content or count differs", wit); }
     { size_t lim = (size_t)r.below(full.size() + 2); ShortWriter w(lim); size_t n = pretty ? AJ::serializeJsonPretty(doc, w) : AJ::serializeJson(doc, w);
